@@ -6,7 +6,7 @@
    [ha_mux_creds l]  what a tcpmux listener demands    (user name non-empty, as Muxer.handle defines it)
    [ha_cfg_creds c]  what a web server / plugin demands (user or password non-empty)
    [ha_presented rq] the pair carried by Authorization (the zero strings when absent or malformed)              *)
-From FRP Require Import Model.HttpAuth Model.HttpAuthGroup Proofs.HttpAuthProofs gen.GenRoutes.
+From FRP Require Import Model.HttpAuth Model.HttpAuthGroup Model.HttpAuthSites Proofs.HttpAuthProofs gen.GenRoutes gen.GenRouteSites.
 Open Scope Z_scope.
 
 (* ---- vhost HTTP reverse proxy: serveRouted ---------------------------------------------------------------- *)
@@ -100,6 +100,64 @@ Theorem C07_tcpmux_group_join_other_credentials_refused : forall g m,
   ha_grp_join_existing g m = (g, 1).
 Proof. exact ha_grp_join_other_credentials_refused. Qed.
 Print Assumptions C07_tcpmux_group_join_other_credentials_refused.
+
+(* ---- http load-balancing groups (server/group/http.go) --------------------------------------------------------- *)
+(* the group's single route carries the credentials of its first member; since fix 76cc372 a joiner is compared with
+   the group in Username / Password too ([ha_hgrp_* true]).  For every history of joins, whichever member serves: *)
+Theorem C07_http_group_member_receives_only_with_credentials : forall canon ms rq chosen m,
+  ha_hgrp_deliver canon (fst (ha_hgrp_run true [] ms)) rq chosen = Some m ->
+  ha_hmember_creds m = None \/ ha_hmember_creds m = Some (ha_presented rq).
+Proof. exact ha_hgrp_member_receives_only_with_credentials_when_compared. Qed.
+Print Assumptions C07_http_group_member_receives_only_with_credentials.
+
+(* reflective over today's source (translator unit t7): HTTPGroup.Register admits a joiner only after comparing these
+   fields of its route config with the group's, in one plain disjunction the translator could read completely — this is
+   what makes [true] the right instance above *)
+Theorem C07_http_group_join_compares_credentials :
+  In "Username"%string http_group_compared /\ In "Password"%string http_group_compared /\
+  In "Domain"%string http_group_compared /\ In "RouteByHTTPUser"%string http_group_compared.
+Proof. exact (ha_group_compares_credentials_sound http_group_compared (eq_refl true)). Qed.
+Print Assumptions C07_http_group_join_compares_credentials.
+
+(* ---- from a proxy's configuration to its routes (server/proxy/http.go, server/proxy/tcpmux.go) ------------------ *)
+(* the model of Run: every route of a proxy — every custom domain, the sub-domain, every location — carries the
+   proxy's user, password and routing user ... *)
+Theorem C07_proxy_routes_carry_credentials : forall sdh p r,
+  In r (ha_px_routes sdh p) ->
+  rt_user r = px_user p /\ rt_pass r = px_pass p /\ rt_by_user r = px_by_user p /\ rt_id r = px_id p /\
+  In (rt_domain r) (ha_px_hosts sdh p).
+Proof. exact ha_px_routes_carry_credentials. Qed.
+Print Assumptions C07_proxy_routes_carry_credentials.
+
+Theorem C07_proxy_subdomain_route_carries_credentials : forall sdh p,
+  px_subdomain p <> [] ->
+  exists r, In r (ha_px_routes sdh p) /\ rt_domain r = (px_subdomain p ++ ha_dot :: sdh)%list /\
+            rt_user r = px_user p /\ rt_pass r = px_pass p.
+Proof. exact ha_px_subdomain_route_exists. Qed.
+Print Assumptions C07_proxy_subdomain_route_carries_credentials.
+
+(* ... and, reflective over today's sources (translator unit t7, gen/GenRouteSites.v): every vhost.RouteConfig value
+   that reaches a registration call in HTTPProxy.Run / TCPMuxProxy.Run holds pxy.cfg.HTTPUser, pxy.cfg.HTTPPassword and
+   pxy.cfg.RouteByHTTPUser, none escapes the analysis, and all eight kinds of site exist: {http, tcpmux} x
+   {custom domain, sub-domain} x {grouped, not grouped} *)
+Theorem C07_route_sites_carry_credentials :
+  (forall x, In x (http_route_sites ++ tcpmux_route_sites) -> exists s, x = SSite s) /\
+  (forall s, In s (ha_sites_of (http_route_sites ++ tcpmux_route_sites)) ->
+     rs_user s = "pxy.cfg.HTTPUser"%string /\ rs_pass s = "pxy.cfg.HTTPPassword"%string /\
+     rs_byuser s = "pxy.cfg.RouteByHTTPUser"%string /\ ha_dkind_known (rs_domain s) = true) /\
+  (forall p d g, In p ["http"%string; "tcpmux"%string] -> In d [DCustom; DSubdomain] ->
+     exists s, In s (ha_sites_of (http_route_sites ++ tcpmux_route_sites)) /\ rs_proxy s = p /\
+               ha_dkind_eqb (rs_domain s) d = true /\ rs_grouped s = g).
+Proof. exact (ha_sites_ok_sound (http_route_sites ++ tcpmux_route_sites) (eq_refl true)). Qed.
+Print Assumptions C07_route_sites_carry_credentials.
+
+(* reflective: the tcpmux group admits a joiner only after comparing these fields of its route config with the
+   group's, in one plain disjunction the translator could read completely *)
+Theorem C07_tcpmux_group_join_compares_credentials :
+  In "Username"%string tcpmux_group_compared /\ In "Password"%string tcpmux_group_compared /\
+  In "Domain"%string tcpmux_group_compared /\ In "RouteByHTTPUser"%string tcpmux_group_compared.
+Proof. exact (ha_group_compares_credentials_sound tcpmux_group_compared (eq_refl true)). Qed.
+Print Assumptions C07_tcpmux_group_join_compares_credentials.
 
 (* ---- HTTPAuthMiddleware (dashboard, admin API, static_file) -------------------------------------------------- *)
 Theorem C07_constant_time_compare_is_equality : forall a b, ha_ct_eq a b = true <-> a = b.
